@@ -1550,8 +1550,5 @@ theorem mv_source_gone_spec : mv_source_gone_Statement Variant.spec := by
         · rename_i o hun
           exact absurd ((Prod.mk.inj hb).2 ▸ hun) (unlink_ne_ok _ _ _)
       · rename_i r hr
-        obtain ⟨fs2, oc⟩ := r
-        simp only [Prod.mk.injEq] at hb
-        obtain ⟨rfl, rfl⟩ := hb
-        exact absurd rfl (hr fs2)
+        exact absurd hb (hr fs')
 end Cooler.C15
